@@ -217,7 +217,7 @@ ini_buf_gen(const ini_p ini, uint8_t *buf, const size_t buf_size,
 	int error = 0;
 	size_t i, off;
 
-	if (NULL == ini || NULL == buf || 0 == buf_size ||
+	if (NULL == ini || NULL == buf || /* 0 == buf_size: empty store. */
 	    NULL == buf_size_ret)
 		return (EINVAL);
 
@@ -277,7 +277,7 @@ ini_sect_enum(const ini_p ini, size_t *sect_off,
 size_t
 ini_sect_find(const ini_p ini, const uint8_t *sect_name,
     const size_t sect_name_size) {
-	size_t i = 0, name_size;
+	size_t i = 0, name_size, found = INI_OFFSET_INVALID;
 	const uint8_t *name;
 
 	if (NULL == ini || NULL == sect_name) /* Empty name ("[]") is a name. */
@@ -285,20 +285,22 @@ ini_sect_find(const ini_p ini, const uint8_t *sect_name,
 	if (NULL == ini->lines)
 		return (INI_OFFSET_INVALID);
 
-	/* Look for section. */
+	/* Look for section: the last record with this name, ini_val_set()
+	 * add new values to it and ini_val_get() look in it last. */
 	while (0 == ini_sect_enum(ini, &i, &name, &name_size)) {
-		if (0 == mem_cmpn(name, name_size, sect_name, sect_name_size))
-			return (i); /* Found! */
+		if (0 == mem_cmpn(name, name_size, sect_name, sect_name_size)) {
+			found = i; /* Found! */
+		}
 		i ++;
 	}
 
-	return (INI_OFFSET_INVALID);
+	return (found);
 }
 
 size_t
 ini_sect_findi(const ini_p ini, const uint8_t *sect_name,
     const size_t sect_name_size) {
-	size_t i = 0, name_size;
+	size_t i = 0, name_size, found = INI_OFFSET_INVALID;
 	const uint8_t *name;
 
 	if (NULL == ini || NULL == sect_name) /* Empty name ("[]") is a name. */
@@ -306,14 +308,16 @@ ini_sect_findi(const ini_p ini, const uint8_t *sect_name,
 	if (NULL == ini->lines)
 		return (INI_OFFSET_INVALID);
 
-	/* Look for section. */
+	/* Look for section: the last record with this name, ini_val_set()
+	 * add new values to it and ini_val_get() look in it last. */
 	while (0 == ini_sect_enum(ini, &i, &name, &name_size)) {
-		if (0 == mem_cmpin(name, name_size, sect_name, sect_name_size))
-			return (i); /* Found! */
+		if (0 == mem_cmpin(name, name_size, sect_name, sect_name_size)) {
+			found = i; /* Found! */
+		}
 		i ++;
 	}
 
-	return (INI_OFFSET_INVALID);
+	return (found);
 }
 
 int
@@ -702,7 +706,9 @@ update_value:
 	/* Update. */
 	line->data_size = data_size;
 	line->val_size = val_size;
-	memcpy(line->val, val, val_size);
+	if (0 != val_size) { /* Empty value may be NULL: memcpy(..., NULL, 0) is UB. */
+		memcpy(line->val, val, val_size);
+	}
 
 	return (0);
 }
